@@ -99,6 +99,25 @@ func (d *Document) VerifShallowState() string {
 	return b.String()
 }
 
+// VerifShallowOf is the same fingerprint for any other object of the package (a *Table, a *TemplateEngine,
+// a *Template ...): a memo, counter or cached pointer added to one of them becomes part of the state key of the
+// search that works on it.  Locks are left out (their words are not state of the abstraction).
+func VerifShallowOf(x interface{}) string {
+	v := reflect.ValueOf(x)
+	for v.Kind() == reflect.Ptr || v.Kind() == reflect.Interface {
+		if v.IsNil() {
+			return "nil"
+		}
+		v = v.Elem()
+	}
+	if v.Kind() != reflect.Struct {
+		return v.Kind().String()
+	}
+	var b strings.Builder
+	shallowFields(&b, v, 1)
+	return b.String()
+}
+
 func shallowFields(b *strings.Builder, v reflect.Value, depth int) {
 	t := v.Type()
 	for i := 0; i < v.NumField(); i++ {
@@ -106,6 +125,9 @@ func shallowFields(b *strings.Builder, v reflect.Value, depth int) {
 		name := t.Field(i).Name
 		if name == "Body" {
 			continue // the body is the searches' explicit state
+		}
+		if strings.Contains(f.Type().String(), "Mutex") {
+			continue
 		}
 		switch f.Kind() {
 		case reflect.Bool:
